@@ -4783,6 +4783,12 @@ class ParseCtx:
     def _parse_macro_call(self, lark_node_for_error: lark.Tree, macro: Macro, arguments: List[lark.Tree]):
         if len(arguments) != len(macro.arguments):
             raise IllegalParseTree("Incorrect number of arguments", lark_node_for_error)
+        # Macros are expanded in place, so a macro that (eventually) calls itself would never stop expanding.
+        depth, instance = 0, self.active_macro
+        while instance is not None:
+            depth, instance = depth + 1, instance.parent
+        if depth >= 64:
+            raise IllegalParseTree("Macro expansion nested too deeply (recursive macro?)", lark_node_for_error)
         self.bound_argument_stack.append(
             macro.bind_arguments_for(arguments, self)
         )
